@@ -67,7 +67,9 @@ impl EventParser {
         }
     }
 
-    /// Extract the type name from a Type, handling references and generic wrappers
+    /// Extract the type from a Type, handling references; generic arguments are kept so that
+    /// `Vec<User>` or `Option<String>` translate like any other Rust type (path prefixes are
+    /// dropped: `models::User` is `User`)
     fn extract_type_name(&self, ty: &Type) -> String {
         match ty {
             Type::Reference(type_ref) => {
@@ -77,10 +79,32 @@ impl EventParser {
             Type::Path(type_path) => {
                 // Get the last segment of the path (the actual type name)
                 if let Some(segment) = type_path.path.segments.last() {
-                    segment.ident.to_string()
+                    let ident = segment.ident.to_string();
+                    if let syn::PathArguments::AngleBracketed(args) = &segment.arguments {
+                        let generic_args: Vec<String> = args
+                            .args
+                            .iter()
+                            .filter_map(|arg| match arg {
+                                syn::GenericArgument::Type(t) => Some(self.extract_type_name(t)),
+                                _ => None,
+                            })
+                            .collect();
+                        if !generic_args.is_empty() {
+                            return format!("{}<{}>", ident, generic_args.join(", "));
+                        }
+                    }
+                    ident
                 } else {
                     "unknown".to_string()
                 }
+            }
+            Type::Tuple(type_tuple) => {
+                let elements: Vec<String> = type_tuple
+                    .elems
+                    .iter()
+                    .map(|t| self.extract_type_name(t))
+                    .collect();
+                format!("({})", elements.join(", "))
             }
             _ => "unknown".to_string(),
         }
@@ -475,8 +499,8 @@ impl EventParser {
                 if tuple.elems.is_empty() {
                     return "()".to_string();
                 }
-                // For now, just mark as tuple
-                "tuple".to_string()
+                // The element types are not known without a type checker
+                "unknown".to_string()
             }
             // Literal values
             Expr::Lit(lit) => match &lit.lit {
